@@ -311,8 +311,8 @@ func (c *RollingFileAppender) clearExpiredFiles() {
 	expiration := time.Now().Add(-time.Duration(c.MaxAge) * time.Hour)
 	entries, _ := os.ReadDir(c.FileDir)
 	for _, entry := range entries {
-		if entry.IsDir() {
-			continue
+		if !entry.Type().IsRegular() {
+			continue // directories, symbolic links, pipes: nothing this appender wrote
 		}
 		// Only files this appender creates itself: FileName + "." + yyyyMMddHHmmss.
 		suffix, ok := strings.CutPrefix(entry.Name(), c.FileName+".")
